@@ -26,7 +26,8 @@ impl FromStr for ParsedVcs {
         let repo_url: String;
         let re = Regex::new(r" \[([^] ]+)\]").unwrap();
 
-        if let Some(ref m) = re.find(s.as_ref()) {
+        // the subpath is written last: with several bracket groups the last one is the subpath
+        if let Some(ref m) = re.find_iter(s.as_ref()).last() {
             subpath = Some(m.as_str()[2..m.as_str().len() - 1].to_string());
             s = Cow::Owned([s[..m.start()].to_string(), s[m.end()..].to_string()].concat());
         }
